@@ -244,7 +244,26 @@ func checkCmd(opts *RunOpts, args []string) int {
 	evPath := filepath.Join(opts.Verif, "evidence", prop+".json")
 	os.MkdirAll(filepath.Dir(evPath), 0o755)
 	pm := loadPropMeta(opts.Verif, prop)
+	ledAll := loadLedger(opts.Verif)[prop]
+	opts.Expected = map[string]string{}
+	for n, e := range ledAll {
+		opts.Expected[n] = e.Status
+	}
 	run, err := verifyRun(opts)
+	if err == nil {
+		// second chance for obligations that are proved on the baseline tree
+		again := map[string]bool{}
+		for _, res := range run.Results {
+			for _, ob := range res.Obls {
+				if ob.Kind != "vacuity" && ob.Status != "proved" && ob.Status != "refuted" && ledAll[ob.Name].Status == "proved" {
+					again[ob.Name] = true
+				}
+			}
+		}
+		if len(again) > 0 {
+			run.retry(again, 3*opts.TimeoutS)
+		}
+	}
 	if err != nil {
 		// cannot analyse (e.g. repository does not type-check): undecided, no alarm
 		fmt.Printf("UNDECIDED property=%s engine could not run: %v\n", prop, err)
